@@ -392,3 +392,17 @@ def _clone_lazy(ctx, a, ty, c):
             if isinstance(v, Lazy):
                 return Lazy(v.ty, v.name)
     return NotImplemented
+
+
+@summary(r"^<&?(u\d+|usize) as (Add|Sub|Mul)<&?(u\d+|usize)>>::(add|sub|mul)$")
+def _arith_ref(ctx, a, ty, c):
+    """`&x - y` etc. on unsigned integers: std's impl is the checked operator (panics on overflow, dev profile)."""
+    x, y = load(ctx, a[0]), load(ctx, a[1])
+    x, y = ctx.force(x), ctx.force(y)
+    op = c.rsplit("::", 1)[1]
+    name = {"add": "AddWithOverflow", "sub": "SubWithOverflow", "mul": "MulWithOverflow"}[op]
+    r = ctx.binop(name, x, y)
+    ovf = r.fields[1].e
+    if ctx.branch([z3.Not(ovf), ovf]) == 1:
+        raise PathEnd("panic", "attempt to %s with overflow (%s)" % (op, c))
+    return r.fields[0]
